@@ -330,9 +330,13 @@ fn gen_op(r: &mut SplitMix, model_nodes: &[usize], fresh_left: &mut Vec<usize>, 
     match r.below(100) {
         0..=14 => Op::AddNode(p(r)),
         15..=39 => {
-            // usage protocol: the target of an edge has been registered
-            if model_nodes.is_empty() {
-                return Op::AddNode(p(r));
+            // the target of an edge has usually been registered (as PackageBuilder::register
+            // does); now and then it has not - the edge then dangles until the path is registered
+            if model_nodes.is_empty() || (allow_rename && r.chance(0.15)) {
+                if model_nodes.is_empty() && !allow_rename {
+                    return Op::AddNode(p(r));
+                }
+                return Op::IncRef(node_or_any(r), p(r));
             }
             let d = *r.pick(model_nodes);
             let rr = node_or_any(r);
@@ -342,13 +346,15 @@ fn gen_op(r: &mut SplitMix, model_nodes: &[usize], fresh_left: &mut Vec<usize>, 
         47..=52 => {
             if allow_rename && !fresh_left.is_empty() {
                 let old = node_or_any(r);
-                // the new name is not currently a node: either a never-used extra name ...
+                // the new name differs from the old one and is not currently a node: either a
+                // never-used extra name ...
                 if r.chance(0.5) || model_nodes.len() >= NPATH {
                     let new = fresh_left.pop().unwrap();
                     Op::Rename(old, new)
                 } else {
                     // ... or one of the six that is not registered right now
-                    let free: Vec<usize> = (0..NPATH).filter(|q| !model_nodes.contains(q)).collect();
+                    let free: Vec<usize> =
+                        (0..NPATH).filter(|q| !model_nodes.contains(q) && *q != old).collect();
                     if free.is_empty() {
                         Op::Sort
                     } else {
@@ -706,8 +712,7 @@ fn protocol_ok(ops: &[Op]) -> bool {
     let mut m = Model::default();
     for op in ops {
         match op {
-            Op::IncRef(_, d) if !m.has(*d) => return false,
-            Op::Rename(_, new) if m.has(*new) => return false,
+            Op::Rename(old, new) if m.has(*new) || old == new => return false,
             _ => {}
         }
         m.apply(op);
@@ -725,7 +730,8 @@ fn main() {
     let count = args.u64("count", 1000);
     let mode = args.get("mode").unwrap_or("single").to_string();
     let paths: Vec<NormalizedPathBuf> = (0..NPATH + NFRESH).map(path).collect();
-    let rt = Runtime::install(Config { linger: false, ..Config::default() });
+    // single-caller histories all run on sim thread 0 of one runtime: no step cap across them
+    let rt = Runtime::install(Config { linger: false, step_cap: u64::MAX, ..Config::default() });
     simrt::install_panic_hook(rt, args.has("verbose"));
     let _ = ModuleGraph::new();
 
